@@ -21,7 +21,7 @@ From Grex Require Import Proofs.Lang Proofs.Spec Proofs.FoldTables Proofs.Engine
 From Grex Require Import Engine.Syntax Engine.Parse Engine.Sem.
 From Grex Require Import Proofs.PrintParseNum Proofs.PrintParseDefs Proofs.PrintParseXTok
   Proofs.PropsGlueE2E.
-From Grex Require Proofs.MergeSound Proofs.HopcroftSym Proofs.HopcroftAny.
+From Grex Require Proofs.MergeSound Proofs.HopcroftSym Proofs.HopcroftAny Proofs.EndToEndMerge.
 From GrexGen Require Import GrexTables OracleTables.
 
 (* (a) every (normalised) test case that satisfies its own specification is accepted;
@@ -243,6 +243,66 @@ Theorem C01_sound_with_merge : forall (lit cls : cp -> cp -> Prop) c db sc ws e 
   L_expr lit cls e t'.
 Proof. exact HopcroftAny.sound_expr_with_merge. Qed.
 
+(* (j) END TO END WITHOUT no_merge: the statements of (f) for every input, merged trie edges
+       or not.  (f) goes through "the language of the final expression IS the specification",
+       which fails with merged edges (K1); soundness only needs (i), the parsed AST of the
+       printed pattern (top_rast) and its language. *)
+Theorem C01_build_parse_sound_any : forall isd is_ws c db sc ws s,
+  f_ci c = false ->
+  ws <> [] ->
+  Forall (Forall scalar) ws ->
+  oracle_ok db (normalise c db ws) ->
+  printable c -> f_verbose c = false -> ws_ok is_ws ->
+  build isd c db sc ws = Some s ->
+  exists fl r, parse is_ws s = Some (fl, r) /\ fl_i fl = false /\ fl_x fl = false
+    /\ forall t, In t ws -> (t <> [] \/ K4 (normalise c db ws) = false) ->
+         L_rast lit_cs cls_engine r t.
+Proof. exact EndToEndMerge.build_sound_cs_any_nv. Qed.
+
+Theorem C01_build_parse_sound_any_verbose : forall isd is_ws c db sc ws s,
+  f_ci c = false ->
+  ws <> [] ->
+  Forall (Forall scalar) ws ->
+  oracle_ok db (normalise c db ws) ->
+  printable c -> f_verbose c = true -> ws_x is_ws ->
+  build isd c db sc ws = Some s ->
+  exists fl r, parse is_ws s = Some (fl, r) /\ fl_i fl = false /\ fl_x fl = true
+    /\ forall t, In t ws -> (t <> [] \/ K4 (normalise c db ws) = false) ->
+         L_rast lit_cs cls_engine r t.
+Proof. exact EndToEndMerge.build_sound_cs_any_v. Qed.
+
+Theorem C01_build_parse_sound_any_ci : forall isd is_ws c db sc ws s,
+  f_ci c = true ->
+  ws <> [] ->
+  Forall (Forall scalar) ws ->
+  (forall s0, In s0 ws -> Forall scalar (lower' db s0)) ->
+  oracle_ok db (normalise c db ws) ->
+  printable c -> f_verbose c = false -> ws_ok is_ws ->
+  build isd c db sc ws = Some s ->
+  exists fl r, parse is_ws s = Some (fl, r) /\ fl_i fl = true /\ fl_x fl = false
+    /\ forall t, In t ws ->
+         lower' db t = map lower1 t ->
+         Forall (fun x => mem_cp x skew_set = false) t ->
+         (t <> [] \/ K4 (normalise c db ws) = false) ->
+         L_rast lit_ci cls_engine r t.
+Proof. exact EndToEndMerge.build_sound_ci_any_nv. Qed.
+
+Theorem C01_build_parse_sound_any_ci_verbose : forall isd is_ws c db sc ws s,
+  f_ci c = true ->
+  ws <> [] ->
+  Forall (Forall scalar) ws ->
+  (forall s0, In s0 ws -> Forall scalar (lower' db s0)) ->
+  oracle_ok db (normalise c db ws) ->
+  printable c -> f_verbose c = true -> ws_x is_ws ->
+  build isd c db sc ws = Some s ->
+  exists fl r, parse is_ws s = Some (fl, r) /\ fl_i fl = true /\ fl_x fl = true
+    /\ forall t, In t ws ->
+         lower' db t = map lower1 t ->
+         Forall (fun x => mem_cp x skew_set = false) t ->
+         (t <> [] \/ K4 (normalise c db ws) = false) ->
+         L_rast lit_ci cls_engine r t.
+Proof. exact EndToEndMerge.build_sound_ci_any_v. Qed.
+
 (* non-vacuity of (g): "ab" "abbb" "cb" "cbb" "cbbb" with repetition conversion merges an
    edge (c -b{1,3}->) and passes the certificate; "xbba" "xbcc" "ybba" "ybbcc" "ybcc" (the
    witness of the former smaller-half defect of minimize) passes it too although its trie is
@@ -278,3 +338,7 @@ Print Assumptions C01_spec_sound_symdet.
 Print Assumptions C01_sound_symdet.
 Print Assumptions C01_spec_sound_with_merge.
 Print Assumptions C01_sound_with_merge.
+Print Assumptions C01_build_parse_sound_any.
+Print Assumptions C01_build_parse_sound_any_verbose.
+Print Assumptions C01_build_parse_sound_any_ci.
+Print Assumptions C01_build_parse_sound_any_ci_verbose.
